@@ -423,7 +423,7 @@ class FitOutputManager:
         """
         if parameter_name == "mixing_matrix":
             ax[i].set_title(parameter_name + " " + model.features[index])
-        elif parameter_name == "zeta":
+        elif parameter_name == "zeta" and index is not None:
             ax[i].set_title(parameter_name + " " + "event" + " " + str(index + 1))
         elif parameter_name.startswith("sourcewise"):
             ax[i].set_title(
